@@ -313,8 +313,8 @@ def enumerations(tier, shard, nshards):
         ]
         text = "\n".join(lines) + "\n"
         yield {"kind": "io", "gfa": text}
-        for ws in (True, False):
-            yield {"kind": "order", "gfa": text, "order": "chr1", "by_chrom": ws, "with_sequence": ws, "via": "api"}
+        for by, ws in ((True, True), (False, False), (False, True)):
+            yield {"kind": "order", "gfa": text, "order": "chr1", "by_chrom": by, "with_sequence": ws, "via": "api"}
 
     yield ("a segment line longer than 1 MiB (1.2 Mb insertion allele): round trip and order_gfa with/without sequences", gen(), True)
 
